@@ -315,6 +315,32 @@ pub fn run_case(w: &[&str]) -> Option<String> {
                 Err(e) => Some(format!("{e:?}")),
             }
         }
+        // the same document through a real `Server` (didOpen + textDocument/formatting over the in-memory
+        // connection, default settings): must give the text of `fmt-show 11 100`
+        ["fmt-server", t] => {
+            let text = unhex_text(t)?;
+            let mut s = LsSession::new(1);
+            s.open(&text).ok()?;
+            let params = DocumentFormattingParams {
+                text_document: TextDocumentIdentifier { uri: s.uri.clone() },
+                options: FormattingOptions {
+                    tab_size: 4,
+                    insert_spaces: true,
+                    properties: HashMap::new(),
+                    trim_trailing_whitespace: None,
+                    insert_final_newline: None,
+                    trim_final_newlines: None,
+                },
+                work_done_progress_params: WorkDoneProgressParams::default(),
+            };
+            let resp = s.request::<lsp_types::request::Formatting>(params);
+            let edits: Option<Vec<lsp_types::TextEdit>> = serde_json::from_value(resp.response_result.ok()?).ok()?;
+            match edits {
+                Some(e) if e.len() == 1 => Some(format!("ok {}", hex_text(&e[0].new_text))),
+                Some(_) => Some("edits-unexpected".into()),
+                None => Some("no-result".into()),
+            }
+        }
         ["par-ls", _] => crate::c34::run_case(w),
         _ => None,
     }
@@ -364,7 +390,7 @@ fn comment_text(kind: usize, n: usize) -> String {
 }
 
 /// Texts with comments: (name, text).
-fn commented_texts(rng: &mut Rng, thorough: bool) -> Vec<(String, String)> {
+pub fn commented_texts(rng: &mut Rng, thorough: bool) -> Vec<(String, String)> {
     let mut out = vec![];
     for (pi, p) in probes().iter().enumerate() {
         let bs = boundaries(p);
